@@ -139,5 +139,10 @@ func (tracker *TxTracker) Check(ctx context.Context, mempool *MemPool, transmitt
 		} // else wait and check again later
 	}
 
+	// Send any remaining requests.
+	if len(invRequest.InvList) > 0 {
+		transmitter.TransmitMessage(invRequest)
+	}
+
 	return nil
 }
